@@ -21,8 +21,19 @@ def with_variants(jobs, tier: str):
 
     jobs = list(jobs)
     keep = slice_keep(tier)
-    base = [j for j in jobs if tier != "quick" or keep(j)]
-    return dedupe(chain(jobs, mutate.variants(base)))
+    base = sorted((j for j in jobs if tier != "quick" or keep(j)), key=lambda j: j["id"])
+    base1, base2 = base, base
+    if tier == "quick":
+        # evenly spaced sub-slices: <= VT_V1_CAP programs get the syntactic, <= VT_V2_CAP the semantic variants
+        base1 = _spread(base, int(os.environ.get("VT_V1_CAP", "200")))
+        base2 = _spread(base, int(os.environ.get("VT_V2_CAP", "60")))
+    return dedupe(chain(jobs, mutate.variants(base1), mutate.variants2(base2)))
+
+
+def _spread(items: list, cap: int) -> list:
+    if len(items) <= cap:
+        return items
+    return [items[(k * len(items)) // cap] for k in range(cap)]
 
 
 def family_main(prop: str, tier: str, seed: int, jobs, rule: str, bounds: dict, post=None) -> int:
